@@ -41,6 +41,7 @@ import Bmc.Proofs.ApiWrappers
 import Bmc.Proofs.EndToEnd.DecodeC07
 import Bmc.Proofs.EndToEnd.DecodeSetupC07
 import Bmc.Proofs.EndToEnd.ReuseC17
+import Bmc.Proofs.EndToEnd.ReceiverC17
 #print axioms Bmc.Proofs.C17.deviceID_reuse
 #print axioms Bmc.Proofs.C17.chassis_reuse
 #print axioms Bmc.Proofs.C17.message_reuse
@@ -137,3 +138,28 @@ import Bmc.Proofs.EndToEnd.ReuseC17
 #print axioms Bmc.Proofs.EndToEnd.generated_V1Session_decodes
 #print axioms Bmc.Proofs.EndToEnd.generated_session_SendCommand_ignores_history
 #print axioms Bmc.Proofs.EndToEnd.generated_sessionless_SendCommand_ignores_history
+#print axioms Bmc.Proofs.EndToEnd.generated_GetDeviceIDRsp_ignores_receiver
+#print axioms Bmc.Proofs.EndToEnd.generated_GetChassisStatusRsp_ignores_receiver
+#print axioms Bmc.Proofs.EndToEnd.generated_GetChannelAuthenticationCapabilitiesRsp_ignores_receiver
+#print axioms Bmc.Proofs.EndToEnd.generated_GetChannelCipherSuitesRsp_ignores_receiver
+#print axioms Bmc.Proofs.EndToEnd.generated_SetSessionPrivilegeLevelRsp_ignores_receiver
+#print axioms Bmc.Proofs.EndToEnd.generated_GetSystemGUIDRsp_ignores_receiver
+#print axioms Bmc.Proofs.EndToEnd.generated_GetSessionInfoRsp_ignores_receiver
+#print axioms Bmc.Proofs.EndToEnd.generated_GetSDRRepositoryInfoRsp_ignores_receiver
+#print axioms Bmc.Proofs.EndToEnd.generated_ReserveSDRRepositoryRsp_ignores_receiver
+#print axioms Bmc.Proofs.EndToEnd.generated_GetSDRRsp_ignores_receiver
+#print axioms Bmc.Proofs.EndToEnd.generated_SDR_ignores_receiver
+#print axioms Bmc.Proofs.EndToEnd.generated_GetSensorReadingRsp_ignores_receiver
+#print axioms Bmc.Proofs.EndToEnd.generated_FullSensorRecord_ignores_receiver
+#print axioms Bmc.Proofs.EndToEnd.generated_GetPowerReadingRsp_ignores_receiver
+#print axioms Bmc.Proofs.EndToEnd.generated_GetDCMICapabilitiesInfoSupportedCapabilitiesRsp_ignores_receiver
+#print axioms Bmc.Proofs.EndToEnd.generated_GetDCMICapabilitiesInfoMandatoryPlatformAttrsRsp_ignores_receiver
+#print axioms Bmc.Proofs.EndToEnd.generated_GetDCMICapabilitiesInfoOptionalPlatformAttrsRsp_ignores_receiver
+#print axioms Bmc.Proofs.EndToEnd.generated_GetDCMICapabilitiesInfoManageabilityAccessAttrsRsp_ignores_receiver
+#print axioms Bmc.Proofs.EndToEnd.generated_OpenSessionRsp_ignores_receiver
+#print axioms Bmc.Proofs.EndToEnd.generated_RAKPMessage1_ignores_receiver
+#print axioms Bmc.Proofs.EndToEnd.generated_RAKPMessage2_ignores_receiver
+#print axioms Bmc.Proofs.EndToEnd.generated_RAKPMessage4_ignores_receiver
+#print axioms Bmc.Proofs.EndToEnd.generated_SessionSelector_ignores_receiver
+#print axioms Bmc.Proofs.EndToEnd.generated_V1Session_ignores_receiver
+#print axioms Bmc.Proofs.EndToEnd.generated_Message_ignores_receiver
